@@ -309,7 +309,7 @@ fn c08_case(seed: u64, cx: &mut Ctx) -> (Vec<Failure>, bool, u64) {
     cx.lean.ask("tx.begin 1");
     for (i, op) in prog.iter().enumerate() {
         let m = cx.lean.ask(&format!("tx.op 1 {}", op.spec(&ids)));
-        if m != outs_real[i] {
+        if !no_model() && m != outs_real[i] {
             fails.push(Failure { kind: "model-vs-impl", detail: format!("op #{i} {:?}: model {m} vs real {}; program={:?}", op, outs_real[i], prog) });
             break;
         }
@@ -318,7 +318,7 @@ fn c08_case(seed: u64, cx: &mut Ctx) -> (Vec<Failure>, bool, u64) {
     for k in 0..nks {
         let m = cx.lean.ask(&format!("tx.top {}", ids[k]));
         let real = ref_pairs(final_dump[k].iter());
-        if m != real {
+        if !no_model() && m != real {
             fails.push(Failure { kind: "model-vs-impl", detail: format!("final content of keyspace {k}: model {m} vs real {real}; program={:?}", prog) });
         }
     }
@@ -376,7 +376,7 @@ fn c07_case(seed: u64, cx: &mut Ctx) -> (Vec<Failure>, bool, u64) {
             let m = cx.lean.ask(&format!("tx.begin {id}"));
             let real = format!("instant={}", db.inner().visible_seqno());
             ev!("begin {id}");
-            if m != real { fails.push(Failure { kind: "model-vs-impl", detail: format!("begin: model {m} vs real {real}; trace={trace:?}") }); break; }
+            if !no_model() && m != real { fails.push(Failure { kind: "model-vs-impl", detail: format!("begin: model {m} vs real {real}; trace={trace:?}") }); break; }
             open.push(Open { id, tx, ops: vec![], outs: vec![], snapshot: committed.clone(), overlay: committed.clone(), wrote: false });
             *cx.hist.entry("begin".into()).or_insert(0) += 1;
         } else if choice < 13 && !open.is_empty() {
@@ -387,7 +387,7 @@ fn c07_case(seed: u64, cx: &mut Ctx) -> (Vec<Failure>, bool, u64) {
             ev!("op {} {}", open[i].id, op.spec(&ids));
             let m = cx.lean.ask(&format!("tx.op {} {}", open[i].id, op.spec(&ids)));
             *cx.hist.entry(format!("op={}", op.name())).or_insert(0) += 1;
-            if m != real { fails.push(Failure { kind: "model-vs-impl", detail: format!("tx {} {:?}: model {m} vs real {real}; trace={trace:?}", open[i].id, op) }); break; }
+            if !no_model() && m != real { fails.push(Failure { kind: "model-vs-impl", detail: format!("tx {} {:?}: model {m} vs real {real}; trace={trace:?}", open[i].id, op) }); break; }
             // does the operation leave a write set?  (an RMW whose result equals the current value is skipped)
             {
                 let o = &mut open[i];
@@ -415,7 +415,7 @@ fn c07_case(seed: u64, cx: &mut Ctx) -> (Vec<Failure>, bool, u64) {
             ev!("commit {} -> {real}", o.id);
             let m = cx.lean.ask(&format!("tx.commit {}", o.id));
             *cx.hist.entry(format!("commit={real}")).or_insert(0) += 1;
-            if m != real { fails.push(Failure { kind: "model-vs-impl", detail: format!("commit of tx {}: model {m} vs real {real}; trace={trace:?}", o.id) }); break; }
+            if !no_model() && m != real { fails.push(Failure { kind: "model-vs-impl", detail: format!("commit of tx {}: model {m} vs real {real}; trace={trace:?}", o.id) }); break; }
             if real == "panic" || real == "error" {
                 fails.push(Failure { kind: "impl-vs-oracle", detail: format!("commit of tx {} {real}s; trace={trace:?}", o.id) });
                 break;
@@ -472,7 +472,7 @@ fn c07_case(seed: u64, cx: &mut Ctx) -> (Vec<Failure>, bool, u64) {
                 cx.lean.ask(&format!("tx.op {id} remove {} {}", ids[k], hex(&key)));
             }
             let m = cx.lean.ask(&format!("tx.commit {id}"));
-            if m != "ok" { fails.push(Failure { kind: "model-vs-impl", detail: format!("blind single-operation commit: model says {m}; trace={trace:?}") }); break; }
+            if !no_model() && m != "ok" { fails.push(Failure { kind: "model-vs-impl", detail: format!("blind single-operation commit: model says {m}; trace={trace:?}") }); break; }
             *cx.hist.entry("plain-write".into()).or_insert(0) += 1;
         } else {
             fjall::verif::tracker_gc(db.inner());
@@ -484,7 +484,7 @@ fn c07_case(seed: u64, cx: &mut Ctx) -> (Vec<Failure>, bool, u64) {
         let st = cx.lean.ask("tx.state");
         let tr = &db.inner().supervisor.snapshot_tracker;
         let real_st = format!("seqno={} visible={} open={} wm={}", db.inner().seqno(), db.inner().visible_seqno(), tr.open_snapshots(), tr.get_seqno_safe_to_gc());
-        if !st.starts_with(&real_st) {
+        if !no_model() && !st.starts_with(&real_st) {
             fails.push(Failure { kind: "model-vs-impl", detail: format!("counters: model [{st}] vs real [{real_st}]; trace={trace:?}") });
             break;
         }
